@@ -350,6 +350,29 @@ def check_update_target(v0: int, v1: int, v2: int, v3: int, s0: int, s1: int, s2
     return ok & inv_sym(M) & counts_ok(flags, [])
 
 
+def check_update_transient(v0: int, v1: int, v2: int, v3: int, s0: int, s1: int, s2: int, s3: int, s4: int, s5: int, f0: bool, f1: bool, f2: bool, f3: bool, f4: bool, f5: bool, auto: bool) -> bool:
+    """
+    Model.update(name) with a TRANSIENT node as the named target (it caches nothing itself): all its caching ancestors are brought up to date
+    pre: len(TRANS) >= 1
+    post: _ == True
+    """
+    vals, stale, flags = [v0, v1, v2, v3][:NV], [s0, s1, s2, s3, s4, s5][:NC], [f0, f1, f2, f3, f4, f5][:NC]
+    flags = load(vals, stale, flags, auto)
+    name = TRANS[0]
+    before = snapshot()
+    M.update(name)
+    up = closure_up(name)
+    if any(M.nodes[p].outdated for p in up if p in CACHING):
+        return False
+    ok = values_match_scratch([p for p in up if p in CACHING])
+    for (n, o, val) in before:
+        if n != name and n not in up:
+            if M.nodes[n].outdated != o:
+                return False
+            ok = ok & (M.nodes[n].value == val)
+    return ok & inv_sym(M) & counts_ok(flags, [])
+
+
 def check_assign_raises(v0: int, v1: int, newval: int) -> bool:
     """
     graph `raiser`, auto-update on: assigning input a (a node function rejects a == 13 by raising).  Whether or not the assignment raises, every
